@@ -1,9 +1,10 @@
-import SqlProofs.DelimR.Where
+import SqlProofs.DelimChild.Reindent.Where
 /-!
-# SqlProofs.DelimR.Align — `align_comments`: a `Comment` group is appended to the group in front of it
+# SqlProofs.DelimChild.Reindent.Align — `align_comments`: a `Comment` group is appended to the group in front of it
 -/
 namespace Sql
-namespace DC
+namespace DCR
+open DC
 
 variable {u : Text → Text}
 
@@ -131,5 +132,5 @@ theorem alignLoop_pref {s : Nat} : ∀ (n : Nat) (ks : List Node) (pend : Option
               exact hlow j x hj hx
         · exact ih _ _ _ h hnext hlow
 
-end DC
+end DCR
 end Sql
